@@ -339,6 +339,37 @@ class Args:
             raise
 
 
+class StreamInput:
+    """Input that reads from a host text stream such as sys.stdin."""
+
+    def __init__(self, stream):
+        self.stream = stream
+
+    def process(self, callback):
+        count = 0
+        line = self.readLine()
+        while line is not None:
+            callback(line)
+            count += 1
+            line = self.readLine()
+        return count
+
+    def read(self):
+        return self.stream.read(1) or None
+
+    def readAll(self):
+        return self.stream.read() or None
+
+    def readLine(self):
+        line = self.stream.readline()
+        if line == "":
+            return None
+        return line.rstrip("\r\n")
+
+    def close(self):
+        pass
+
+
 class StringInput:
     def __init__(self, s):
         self.input = s
